@@ -43,6 +43,9 @@ def Grows (fn : Buf → Res (Buf × Bool)) (b : Buf) : Prop :=
 def start (oracle : Nat → Bytes) (field : Int) (enc : Buf) : Buf :=
   (enc.append oracle (Enc.appendTag field 2)).append oracle (List.replicate 2 (0 : Byte))
 
+theorem append_len' (oracle : Nat → Bytes) (b : Buf) (xs : Bytes) : (b.append oracle xs).len = b.len + xs.length := by
+  unfold Buf.append Buf.len; split <;> simp
+
 theorem finish_eq (oracle : Nat → Bytes) (b3 : Buf) (lengthStart messageStart : Nat)
     (hms : messageStart ≤ b3.len) (hlen : b3.len < 9223372036854775808) :
     (do
@@ -95,7 +98,8 @@ theorem anyBytes_eq (oracle : Nat → Bytes) (field : Int) (fn : Buf → Res (Bu
     (henc : enc.len < 9223372036854775808) :
     GoSrc.Encoder.anyBytes oracle field fn enc = anyBytesLow oracle (Enc.appendTag field 2) fn enc := by
   unfold GoSrc.Encoder.anyBytes anyBytesLow anyBytesLowWith GoBuf.appendTag
-  simp only []
+  try unfold_aux_Encoder
+  try simp only []
   unfold Grows start at hfn
   cases h : fn ((enc.append oracle (Enc.appendTag field 2)).append oracle (List.replicate 2 (0 : Byte))) with
   | ok r =>
@@ -111,7 +115,12 @@ theorem anyBytes_eq (oracle : Nat → Bytes) (field : Int) (fn : Buf → Res (Bu
     · have := finish_eq oracle b3 b1.len b2.len hg.1 hg.2
       unfold finishLow at this
       simp only [Int.ofNat_eq_natCast] at this ⊢
-      simpa using this
+      first
+      | (simpa using this)
+      | (have hb21 : b2.len = b1.len + 2 := by rw [← hb2, append_len']; simp
+         have hres : (b2.len : Int) - (b1.len : Int) = 2 := by omega
+         simp only [bind, Res.bind, pure, hres] at this ⊢
+         grind)
   | panic w =>
     have hl2 : lengthBufferPrediction = List.replicate 2 (0 : Byte) := rfl
     rw [hl2, h]; rfl
@@ -127,7 +136,8 @@ theorem alwaysAnyBytes_eq (oracle : Nat → Bytes) (field : Int) (fn : Buf → R
     GoSrc.Encoder.alwaysAnyBytes oracle field fn enc
       = (do let b ← alwaysAnyBytesLow oracle (Enc.appendTag field 2) fn enc; pure (b, true)) := by
   unfold GoSrc.Encoder.alwaysAnyBytes alwaysAnyBytesLow alwaysAnyBytesLowWith GoBuf.appendTag
-  simp only []
+  try unfold_aux_Encoder
+  try simp only []
   have hl2 : lengthBufferPrediction = List.replicate 2 (0 : Byte) := rfl
   rw [hl2]
   unfold Grows1 start at hfn
@@ -139,9 +149,14 @@ theorem alwaysAnyBytes_eq (oracle : Nat → Bytes) (field : Int) (fn : Buf → R
     have := finish_eq oracle b3 b1.len b2.len hg.1 hg.2
     unfold finishLow at this
     simp only [Int.ofNat_eq_natCast] at this ⊢
-    simpa using this
-  | panic w => rfl
-  | outOfFuel => rfl
+    first
+    | (simpa using this)
+    | (have hb21 : b2.len = b1.len + 2 := by rw [← hb2, append_len']; simp
+       have hres : (b2.len : Int) - (b1.len : Int) = 2 := by omega
+       simp only [bind, Res.bind, pure, hres] at this ⊢
+       grind)
+  | panic w => first | rfl | (simp only [bind, Res.bind, pure]; grind)
+  | outOfFuel => first | rfl | (simp only [bind, Res.bind, pure]; grind)
 
 theorem AlwaysAnyBytes_eq (oracle : Nat → Bytes) (field : Int) (fn : Buf → Res Buf) (enc : Buf) (hfn : Grows1 fn (start oracle field enc)) :
     GoSrc.Encoder.AlwaysAnyBytes oracle field fn enc
@@ -258,7 +273,8 @@ theorem RepeatedEnum_eq (oracle : Nat → Bytes) (field : Int) (n : Int) (fn : N
   unfold GoSrc.Encoder.RepeatedEnum
   by_cases h0 : n = 0
   · simp [h0]
-  simp only [h0, if_false]
+  have h0' : n ≠ 0 := h0
+  simp only [h0, h0', if_false, if_true, ne_eq, not_false_eq_true]
   have e : (fun enc : Buf => do
         let i := (0 : Int)
         let (enc, i) ← GoSrc.Encoder.RepeatedEnum.loop1 oracle n fn ((Int.toNat n + 1)) enc i
@@ -274,7 +290,8 @@ theorem RepeatedEnum_eq (oracle : Nat → Bytes) (field : Int) (n : Int) (fn : N
     cases h
     exact ⟨enumLoop_len_ge oracle fn _ _ _, hsz⟩
   rw [alwaysAnyBytes_eq oracle field _ enc hg]
-  cases alwaysAnyBytesLow oracle (Enc.appendTag field 2) (fun b => .ok (enumLoop oracle fn n.toNat 0 b)) enc <;> rfl
+  cases alwaysAnyBytesLow oracle (Enc.appendTag field 2) (fun b => .ok (enumLoop oracle fn n.toNat 0 b)) enc <;>
+    first | rfl | simp [bind, Res.bind, pure]
 
 end Pico.GoTie.E
 
